@@ -132,6 +132,7 @@ def monitor(contract, ncases, rng, on_case=None):
             bindings[nm] = a
         bindings.update(kwargs)
         rtc.bind_varkw(contract, fn, bindings, kwargs)
+        bindings.update(case.get("bind", {}))
         if self_obj is not None:
             bindings["self"] = self_obj
         for nm, d in contract.defaults.items():
@@ -153,7 +154,7 @@ def monitor(contract, ncases, rng, on_case=None):
         n += 1
         desc = case.get("describe") or repr((args, kwargs))[:400]
         try:
-            rtc.check_call(contract, fn, args, kwargs, universe=case.get("universe"), check_pre=False, self_obj=self_obj, ghost=case.get("ghost"))
+            rtc.check_call(contract, fn, args, kwargs, universe=case.get("universe"), check_pre=False, self_obj=self_obj, ghost=case.get("ghost"), extra=case.get("bind"))
         except rtc.ContractViolation as cv:
             return n, {"clause": cv.clause, "kind": cv.kind, "detail": cv.detail[:500], "input": desc,
                        "case_seed": case_seed, "target": contract.key, "module": contract.module}
@@ -175,7 +176,7 @@ def replay_monitor(body):
     fn, cls = resolve_target(c.target)
     case = c.gen(random.Random(cx["case_seed"]))
     try:
-        rtc.check_call(c, fn, case.get("args", ()), case.get("kwargs", {}), universe=case.get("universe"), self_obj=case.get("self"), ghost=case.get("ghost"))
+        rtc.check_call(c, fn, case.get("args", ()), case.get("kwargs", {}), universe=case.get("universe"), self_obj=case.get("self"), ghost=case.get("ghost"), extra=case.get("bind"))
     except rtc.ContractViolation as cv:
         return False, f"{c.target} violates its contract on {case.get('describe') or case.get('args')}: {cv}"
     return True, f"{c.target} satisfies its contract on the recorded input"
